@@ -221,7 +221,11 @@ def make_fileset(
         sub = X[pos : pos + ln]
         if ln == 0:
             sub = np.zeros((0, X.shape[1]), dtype=X.dtype)
-        fields = std_fields(X.shape[1], nbits, tsamp=tsamp, tstart=tstart + pos * tsamp / 86400.0, **hdr)
+        # every member file gets a header of a different length (rawdatafile is not compared between files):
+        # an offset computed with another file's header length then lands on the wrong byte
+        extra = [*(hdr.get("extra") or []), ("rawdatafile", "raw" + "x" * (3 * i))]
+        hdr_i = {k: v for k, v in hdr.items() if k != "extra"}
+        fields = std_fields(X.shape[1], nbits, tsamp=tsamp, tstart=tstart + pos * tsamp / 86400.0, extra=extra, **hdr_i)
         head = encode_header(fields)
         with open(p, "wb") as fp:
             fp.write(head)
